@@ -64,6 +64,7 @@ type Sym struct {
 	// HTTP
 	Status     int
 	RetryAfter string // header value, "" = header absent
+	Location   string // HTTP: a Location header (3xx answers)
 	NetErr     int    // 1 temporary network error, 2 permanent network error
 	// gRPC
 	Code        uint32
@@ -115,6 +116,10 @@ func HTTPAlphabet() []Sym {
 		{Name: "net-temporary", Group: "temporary network error", Class: Retryable, NetErr: 1},
 		{Name: "net-permanent", Group: "permanent network error", Class: NonRetryable, NetErr: 2},
 		st(301, NonRetryable, true), // no Location header: handed to the caller as it is
+		// redirects WITH a Location: not a retryable outcome -- the call ends at that attempt with an
+		// error; in particular the payload is not sent (or a bodiless GET made) to another URL
+		{Name: "302-Location", Group: "HTTP 302 with a Location header", Class: NonRetryable, Status: 302, Location: "http://c14-elsewhere.invalid:4318/v1/x"},
+		{Name: "307-Location", Group: "HTTP 307 with a Location header", Class: NonRetryable, Status: 307, Location: "http://c14-elsewhere.invalid:4318/v1/x", Thorough: true},
 		st(400, NonRetryable, false),
 		st(404, NonRetryable, false),
 		st(408, NonRetryable, true),
@@ -693,6 +698,9 @@ func (roundTripper) RoundTrip(req *http.Request) (*http.Response, error) {
 	if s.RetryAfter != "" {
 		h.Set("Retry-After", s.RetryAfter)
 	}
+	if s.Location != "" {
+		h.Set("Location", s.Location)
+	}
 	return &http.Response{
 		Status:     strconv.Itoa(s.Status) + " " + http.StatusText(s.Status),
 		StatusCode: s.Status,
@@ -1017,6 +1025,16 @@ func (d *driver) judge(sc script, cfg Config, ex expect, rs *runState) (key, msg
 			return word[i-1]
 		}
 		return success
+	}
+	// a redirect that is followed: the answer with a Location header was the expected last one and
+	// another request went out all the same (net/http's default policy: a bodiless GET for 301/302/303,
+	// the payload again for 307/308) -- reported before the payload comparison, under its own key
+	if rs.panicked == nil {
+		for i := 1; i < rs.attempts && i <= len(word); i++ {
+			if symAt(i).Location != "" {
+				return "redirect-followed|" + symAt(i).Group, fmt.Sprintf("answer %d (%s, Location %s) is not a retryable outcome; %d request(s) followed it (the first of them to the Location), Export returned %v", i, symAt(i).Name, symAt(i).Location, rs.attempts-i, rs.err)
+			}
+		}
 	}
 	switch {
 	case rs.panicked != nil:
